@@ -60,6 +60,10 @@ P = {
  "C11": ("runtime monitor with an interval-arithmetic oracle: outward-rounded enclosures of exp/ln (own series with explicit remainder bounds, refined until the ulp test is decided), exact rationals where the true value is rational",
          "Runtime monitoring of exp, exp_m1, ln, ln_1p, powi, powf for 6 modes x 5 bases x precisions 1..300 (thorough 3000) on arguments from B^-1000 to 2*10^4 (thorough 2*10^6), at 1 +- B^-k, in the no-scaling branches, with integer exponents up to +-1500 (thorough +-10^6) and integer-valued / tiny float exponents: the result must lie within one ulp of the enclosed true value, Exact only at rational points, unlimited precision must panic. Undecidable cases are counted as inconclusive, never as violations; the recorded known finding has a magnitude ceiling (2 ulp) and a rate ceiling (2% of evaluations).",
          "Trusts the harness' interval exp/ln (self-tested against f64 each run, validated against mpmath at development time).", "DESIGN.md §4 C11"),
+
+ "C14": ("runtime monitor: one exact extended real embedded into every type that can hold it, all 225 ordered type pairs compared against the exact order; hash equality across embeddings",
+         "Runtime monitoring of NumOrd (num_partial_cmp, num_eq), AbsOrd and NumHash across UBig, IBig, six primitive integer types, f32/f64 (NaN, infinities, -0.0, subnormals), FBig in bases 2/10/3 with different modes, RBig and non-reduced Relaxed: equal values across types, perturbations by one unit / the last bit / the resolution of the f32 log2 estimate, huge exponents with tiny significands.",
+         "Exact order from num-rational; NumHash reference = num-order's own primitive implementation (included among the embeddings).", "DESIGN.md §4 C14"),
 }
 NOT_YET = "monitor not built yet in this round (design in DESIGN.md §4); no claim is made until its check exists and is silent on the unchanged tree"
 
